@@ -9,26 +9,26 @@ BASELINE = json.loads(Path("/root/.vp/BASELINE.json").read_text())["cmd"].replac
 P = {
     "C01": ("round-trip PBT (Hypothesis) + exhaustive payload sub-ranges", "4 C01",
             "Generated and enumerated values written through Table.write, saved, reopened and compared with == "
-            "(type and value); a payload lane packs/unpacks the 16-byte number record for every integer and price sub-range.",
+            "(type and value), also on tables with merged ranges that hide whole rows; a payload lane writes every integer and price of a sub-range through Table.write and packs/unpacks its 16-byte number record.",
             "Positions are capped at row ~1100 / column ~1000 for cost; values follow the property's stated domains."),
     "C02": ("metamorphic round-trip over whole-document snapshots", "4 C02",
             "Every supported fixture and generated documents are re-saved 2-3 times with generated accessor vectors, as single files and in "
             "package-folder form (fresh folder, same folder, two saves from one handle); whole-document snapshots (type, value, formula, formatted value, merges, bullets) must be identical.",
             "The snapshot is taken through the public API; cells/tables the library warns it cannot write are exempt as the property says."),
     "C03": ("model-based stateful PBT (Hypothesis RuleBasedStateMachine) + bounded-exhaustive short histories", "4 C03",
-            "Edit histories run in lock-step against a list-of-lists model across several documents/tables; every short history on tiny tables is enumerated.",
+            "Edit histories (incl. overwrites with ==-equal values of another type) run in lock-step against a list-of-lists model across several documents/tables; every short history on tiny tables is enumerated.",
             "Merged regions and styles are left to C12/C15; deletion below header counts is not generated (undocumented)."),
     "C04": ("exhaustive enumeration + differential against an independent record codec", "4 C04",
-            "All kinds x all 2^12 optional-field subsets encode->decode through the library and through an independent codec written from the published layout; all flag words decode with each field's own sentinel.",
+            "All kinds x all 2^12 optional-field subsets encode->decode through the library and through an independent codec written from the published layout; all flag words decode with each field's own sentinel, and with the id 0 in each optional field in turn.",
             "The layout reference is the SheetJS note the docs defer to; a stub model stands in for string/rich-text lookups."),
     "C05": ("round-trip + metamorphic re-chunking against an independent IWA codec", "4 C05",
-            "Fixture archives, API-generated archives and synthetic archives around the 64 KiB boundaries are decoded/encoded by the library and compared byte-for-byte (uncompressed stream) with an independent codec; re-chunkings must decode identically.",
+            "Fixture archives, API-generated archives and synthetic archives (around the 64 KiB boundaries, with merge patches, with every header size across the varint boundaries) are decoded/encoded by the library and compared byte-for-byte (uncompressed stream) with an independent codec; re-chunkings must decode identically.",
             "python-snappy and protobuf are trusted; stored chunks that are themselves valid snappy are ambiguous in the format and excluded."),
     "C06": ("metamorphic PBT over meaning-preserving file rewrites", "4 C06",
-            "Files are rewritten (list permutation, re-chunking, member order/compression, package form, offset width, explicit empty-row records) with an independent codec and must read as the same snapshot.",
+            "Files are rewritten (list permutation, re-chunking, member order/compression, package form, offset width, explicit empty-row header records, row records of empty rows removed) with an independent codec and must read as the same snapshot.",
             "Lookup lists are maps (the property's premise)."),
     "C07": ("validity-predicate PBT with an independent package validator", "4 C07",
-            "Every package saved after generated histories is decoded independently and checked for referential closure, id uniqueness/high-water mark, metadata inventory and tile/row/offset geometry.",
+            "Every package saved after generated histories is decoded independently and checked for referential closure, id uniqueness/high-water mark, metadata inventory and tile/row/offset geometry (a tile's numrows equals its number of row records).",
             "Apple Numbers itself is unavailable; the predicate is the property's own list."),
     "C08": ("grammar-based program generation + independent infix parser (round-trip on trees)", "4 C08",
             "Expression trees are serialised to Numbers' post-fix node arrays, stored, re-read through Cell.formula and parsed by an independent precedence-climbing parser; trees must be equal.",
@@ -44,22 +44,22 @@ P = {
             "Every position-taking method is driven with both notations of the same generated position against a grid model; boundary products of iterator bounds are enumerated.",
             "Growth is exercised to ~1200 rows / 1000 columns; the limits themselves only on the rejecting side."),
     "C12": ("model-based stateful PBT + exhaustive rectangles on small tables", "4 C12",
-            "Disjoint rectangle sets and subsequent edit histories (writes incl. placeholders, structural edits, tables added after a save, tall tables) are checked against a rectangle model on the open document and after reload.",
+            "Disjoint rectangle sets (named by any two opposite corners) and subsequent edit histories (writes incl. placeholders, structural edits, tables added after a save, tall tables) are checked against a rectangle model on the open document and after reload.",
             "For edits that cut through a rectangle only internal consistency is required (shape unspecified)."),
     "C13": ("PBT with exact-decimal read-back oracle", "4 C13",
-            "Generated (value, format) pairs - and sequences of formats on one cell - are rendered and the text is parsed back in that notation with exact rational arithmetic; |parsed - value| must be within half a unit of the last displayed place.",
-            "Either tie-breaking rule is accepted; automatic decimals only require the numeric relation."),
+            "Generated (value, format) pairs - and sequences of formats on one cell - are rendered and the text is parsed back in that notation with exact rational arithmetic; |parsed - value| must be within half a unit of the last displayed place (15 significant digits and no padded zero under automatic decimals); accounting layout under all four negative styles.",
+            "Either tie-breaking rule is accepted."),
     "C14": ("per-field exhaustive enumeration + PBT compositions against documented meaning", "4 C14",
             "Every directive is rendered for every value of the field it depends on and compared with calendar arithmetic; durations are read back unit by unit.",
             "English names; where docs and Numbers-authored workbooks disagree the documented set is accepted."),
     "C15": ("model-based PBT (attribute model + last-writer-wins edge model)", "4 C15",
-            "Generated styles and stroke sequences (incl. merges, table growth, shared Border objects, edits of saved styles) are compared with an attribute/edge model on the open document and after reload; packages saved with and without reading styles are compared object by object.",
+            "Generated styles and stroke sequences (incl. merges, styles on hidden cells, restyled saved cells, table growth, shared Border objects, edits of saved styles) are compared with an attribute/edge model on the open document and after reload; packages saved with and without reading styles are compared object by object.",
             "Float attributes are generated float32-representable; widths with <=2 decimals."),
     "C16": ("metamorphic round-trip over geometry snapshots, queried vs unqueried", "4 C16",
             "Geometry snapshots of fixtures, of fixtures with sizes set through the API, and of generated documents (settings before or after a first save) must survive cycles, independent of which getters were called.",
-            "Sizes are integer points in 5..500."),
+            "Sizes are integer points in 5..500, one in three at or next to the table default."),
     "C17": ("structure-aware fault injection with an exception-type oracle", "4 C17",
-            "Generated truncations, bit flips, per-member faults (incl. well-formed but unusable headers and plists) and missing paths are applied to real files in single-file, package-folder and nested-Index.zip form; Document(path) must return or raise one of the three library error types while the loader is on the stack.",
+            "Generated truncations, bit flips, per-member faults (incl. well-formed but unusable headers and plists) and missing paths are applied to real files in single-file, package-folder and nested-Index.zip form (inner and outer zip records); Document(path) must return or raise one of the three library error types while the loader is on the stack.",
             "Exceptions raised after the container loader returned are out of scope and only counted."),
     "C18": ("exhaustive short strings + PBT + reader-output corpus with a lossless/total oracle", "4 C18",
             "All short strings over the tokenizer's alphabet, generated strings, every formula text the reader emits for fixtures and generated references are tokenized; only TokenizerError may escape and tokens must concatenate to the input.",
